@@ -97,6 +97,41 @@ def select(prog, unit, from_body, text):
     return out
 
 
+def probe_texts(mnemonics):
+    """texts around every variant mnemonic: both forms and letter cases, with / without / with another numeric suffix,
+    near misses"""
+    from .c03 import ref_split, ref_short
+    out = []
+    for m in mnemonics:
+        name, suf = ref_split(m)
+        short = ref_short(name)
+        for base in (name, name.upper(), name.lower(), short, short.lower(), name + b"x", short[:-1] if len(short) > 1 else b"q", name[: len(short) + 1] if len(name) - len(short) >= 2 else name):
+            for s_ in (suf or b"", b"", b"1", b"01", b"2", (suf or b"") + b"0"):
+                out.append(base + s_)
+    out += [b"", b"1", b"ZZZ"]
+    seen, res = set(), []
+    for t in out:
+        if t not in seen and len(t) <= 12:
+            seen.add(t)
+            res.append(t)
+    return res
+
+
+def selection_mismatches(prog, u, fm, ordered):
+    """from_mnemonic folded on the probe texts vs the rule: the first declared variant whose mnemonic the text matches
+    (short or long form, any case, default-1 suffix); ordered = [(variant, mnemonic)] in declaration order"""
+    from .c03 import ref_match
+    bad = []
+    n = 0
+    for text in probe_texts([m for _, m in ordered]):
+        n += 1
+        exp = next((v for v, m in ordered if ref_match(m, text)), None)
+        got = select(prog, u, fm, text)
+        if got != {exp}:
+            bad.append("%r selects %s, the rule gives %s" % (text, sorted(map(str, got)), exp))
+    return bad, n
+
+
 def run(R, tier):
     PW = facts.program("witness")
     PD = D.prog()
@@ -156,6 +191,11 @@ def run(R, tier):
         R.check(order_ok and none_ok and len(fwd) == len(table) == len(variants) and inverse, "R20.1", "%s:tables" % label,
                 "from_mnemonic: %d first-match guards %s; mnemonic() is the inverse table; no match -> None" % (len(fwd), {k.decode(): v for k, v in fwd.items()}),
                 "derive tables of %s are inconsistent: from_mnemonic %s, mnemonic() %s" % (label, {(k or b'?').decode(): sorted(map(str, v)) for k, v in table.items()}, {k: (v or b'?').decode() for k, v in back.items()}), where=fm.span)
+        # ---- R20.5 selection table: from_mnemonic folded on texts around every mnemonic ------------------------------------
+        if all(back.get(vn) for vn in variants):
+            ordered = [(vn, back[vn]) for vn, _ in sorted(variants.items(), key=lambda kv: kv[1][0])]
+            badsel, nsel = selection_mismatches(prog, u, fm, ordered)
+            R.check(not badsel, "R20.5", "%s:selection" % label, "a datum selects the first declared variant whose mnemonic it matches (short/long form, any case, default-1 suffix) and nothing else (%d texts)" % nsel, "; ".join(badsel[:4]), where=fm.span)
         # ---- R20.2 TryFrom<Token> row ---------------------------------------------------------------------------------
         engc = CV.engine("dflt", "scpi")
         engc = fdai.Engine(prog, u, inline=lambda n, r: False, models={})
